@@ -59,7 +59,13 @@ SRC_TIE = {
            "table as it was on every path that returns NULL, and to stamp a reallocated block with a new number and the current period (27 more theorems). "
            "The byte-level guard loops are tied in C06; the wrappers in MemoryLeakWarningPlugin.cpp and TestHarness_c.cpp stay model + correspondence.",
     "C06": " SOURCE TIE BY PROOF: the two guard-byte loops (addMemoryCorruptionInformation, validMemoryCorruptionInformation) are regenerated from the source "
-           "on every run (tools/cxx2gal.py) and proved equal to the model's pattern / valid_guard.",
+           "on every run (tools/cxx2gal.py) and proved equal to the model's pattern / valid_guard. The function-pointer wiring of "
+           "MemoryLeakWarningPlugin.cpp is read from clang's AST on every run (tools/gen/PlugC06.py: static initialisers of the 22 pointer variables, the "
+           "assignments of turnOff / turnOnDefault / turnOnThreadSafe / saveAndDisable / restore in order, what each of the 33 handler functions calls "
+           "and with which current-allocator getter, the pointer each of the 21 global operator new / delete / cpputest_* entry points calls) and the "
+           "hand-written tables of the plugin-layer model are proved equal to it, save / restore executed on the extracted statement lists being "
+           "the model's switch step (13 more theorems): a wiring slip breaks a lemma by name. The detector's release classification is tied in C04's "
+           "translated checkForCorruption / matchingAllocation.",
     "C13": " SOURCE TIE BY PROOF: StrLen, StrCmp, StrNCmp, MemCmp, StrNCpy, StrStr, AtoU, AtoI and the methods size, isEmpty, at, contains, startsWith, endsWith, "
            "count, findFrom, find, replace(char,char), copyToBuffer, getPrintableSize, operator== are regenerated from SimpleString.cpp on every run by "
            "tools/cxx2gal.py (clang AST -> fuelled Gallina over a bounds-checked byte memory); the primitives are proved EQUAL to the model functions (Oob cases "
